@@ -481,6 +481,12 @@ pub async fn step_viss(w: &mut World, op: Tok, c: &mut Cur<'_>, start: SystemTim
                                             }
                                         }
                                     }
+                                    // description as registered?
+                                    let desc = node.get("description").and_then(|d| d.as_str()).unwrap_or("");
+                                    o.push(match w.reg.get(&id) {
+                                        Some((d, _)) => (desc == d) as Tok,
+                                        None => 1,
+                                    });
                                     rows.push(o);
                                 }
                                 if unreadable {
